@@ -31,10 +31,26 @@ pub fn check_points(got: &[(f64, f64)], seq: &[u8], s: u64) -> Result<(), (Strin
     let tol = s as f64 * 2f64.powi(-48);
     let mut xb: Vec<bool> = Vec::new();
     let mut yb: Vec<bool> = Vec::new();
+    let mut prev = (s as f64 / 2.0, s as f64 / 2.0);
     for (i, (g, w)) in got.iter().zip(want.iter()).enumerate() {
         let (bx, by) = model::cgr_corner_bits(seq[i]).unwrap();
         xb.push(bx);
         yb.push(by);
+        // the rule itself, on the reported points: point i is the midpoint between the reported point i-1
+        // and the corner, to the precision of a double at that magnitude (4 ulp; sound both for a step-wise
+        // implementation and for one that computes every point to half an ulp from the bases). Near the
+        // corner coordinate 0 the values get arbitrarily small, so an absolute tolerance would not see
+        // a point that leaves its sub-square after a long run of one corner coordinate.
+        for (axis, gv, pv, corner) in [("x", g.0, prev.0, if bx { s as f64 } else { 0.0 }), ("y", g.1, prev.1, if by { s as f64 } else { 0.0 })] {
+            let mid = (pv + corner) / 2.0;
+            if !((gv - mid).abs() <= 4.0 * mid.abs() * f64::EPSILON + 4.0 * f64::MIN_POSITIVE) {
+                return Err((
+                    "not-the-midpoint".into(),
+                    format!("point {} ({}), {}: {:e} is not the midpoint {:e} between the previous point's {:e} and the corner's {:e} (S={})", i, seq[i] as char, axis, gv, mid, pv, corner, s),
+                ));
+            }
+        }
+        prev = *g;
         for (axis, gv, (wv, exact)) in [("x", g.0, w.0), ("y", g.1, w.1)] {
             let ok = if exact { gv == wv } else { (gv - wv).abs() <= tol };
             if !ok || !gv.is_finite() {
@@ -333,7 +349,82 @@ impl Leg for Python {
     }
 }
 
+/// long and low-complexity sequences (8 000 - 70 000 bases; 1.2 million in the thorough tier): runs of
+/// one corner coordinate that take a point tens of thousands of halvings towards an edge, lengths beyond
+/// any block-wise fast path; through the library routine and through pykmertools.CgrComputer
+#[derive(Clone, Debug, Serialize, Deserialize)]
+pub struct LongCase {
+    pub giant: gen::Giant,
+    pub s: u64,
+    pub python: bool,
+}
+
+pub struct Long;
+impl Leg for Long {
+    type Case = LongCase;
+    const NAME: &'static str = "long-sequences";
+    fn strategy(tier: Tier) -> BoxedStrategy<LongCase> {
+        let hi = tier.pick(70_000, 1_200_000);
+        (prop_oneof![3 => gen::giant(8_000, hi, b"ACGTUacgtu".to_vec()), 1 => gen::giant_random(8_000, hi, b"ACGTU".to_vec())], gen::square_strategy(), any::<bool>())
+            .prop_map(|(giant, s, python)| LongCase { python: python && giant.rand_seed.is_none(), giant, s })
+            .boxed()
+    }
+    fn check(c: &LongCase) -> Verdict {
+        let mut v = Verdict::new();
+        let seq = c.giant.expand();
+        v.class(c.giant.label());
+        v.class(if c.python { "long-python" } else { "long-library" });
+        v.nontrivial = true;
+        // longest run of bases sharing a zero corner coordinate (x: A or C, y: A or T/U)
+        let mut best = 0usize;
+        for pick in [0usize, 1] {
+            let mut run = 0usize;
+            for &b in &seq {
+                let (bx, by) = model::cgr_corner_bits(b).unwrap();
+                if !(if pick == 0 { bx } else { by }) {
+                    run += 1;
+                    best = best.max(run);
+                } else {
+                    run = 0;
+                }
+            }
+        }
+        v.class_if(best >= 75, "zero-corner-run>=75");
+        v.class_if(best >= 1100, "zero-corner-run>=1100(subnormal)");
+        let pts: Vec<(f64, f64)> = if c.python {
+            match crate::pyworker::ask(&serde_json::json!({"op": "cgr", "s": c.s, "giant": c.giant.to_json()})) {
+                Err(e) => {
+                    crate::pyworker::record_error(&mut v, e);
+                    return v;
+                }
+                Ok(r) => match r["ok"].as_array() {
+                    None => {
+                        v.fail("python-nucleotides-rejected", format!("pykmertools.CgrComputer rejected a nucleotide string: {}", crate::util::trunc(&r.to_string(), 200)));
+                        return v;
+                    }
+                    Some(a) => a.iter().map(|p| (p[0].as_f64().unwrap_or(f64::NAN), p[1].as_f64().unwrap_or(f64::NAN))).collect(),
+                },
+            }
+        } else {
+            match computer(c.s).verif_vectorise_one(&seq) {
+                Ok(g) => g,
+                Err(e) => {
+                    v.fail("nucleotides-rejected", format!("a pure nucleotide string was rejected: {}", e));
+                    return v;
+                }
+            }
+        };
+        if let Err((s, m)) = check_points(&pts, &seq, c.s) {
+            v.fail(if c.python { format!("python-{}", s) } else { s }, format!("{} bases: {}", seq.len(), m));
+        }
+        v
+    }
+}
+
 pub fn run(ctx: &mut Ctx) {
+    let n = ctx.share(ctx.tier.pick(160, 3_200));
+    ctx.run_leg::<Long>(n, false, 12);
+
     let n = ctx.share(ctx.tier.pick(30_000, 400_000));
     ctx.run_leg::<Python>(n, false, 1000);
     let n = ctx.share(ctx.tier.pick(40_000, 600_000));
@@ -351,6 +442,7 @@ pub fn replay(leg: &str, case: &serde_json::Value) -> Option<Result<Verdict, Str
         "reject-one" => Some(crate::engine::replay_leg::<Reject>(case)),
         "files" => Some(crate::engine::replay_leg::<Files>(case)),
         "python" => Some(crate::engine::replay_leg::<Python>(case)),
+        "long-sequences" => Some(crate::engine::replay_leg::<Long>(case)),
         _ => None,
     }
 }
